@@ -739,75 +739,178 @@ def _iter_over(it, x):
 
 
 # =============================================================================== D5
+def _subst_expr(e, env):
+    """elem expression with symbols replaced by literals and the position in the counting range by env['#']"""
+    if isinstance(e, frozenset):
+        return frozenset(_subst_expr(x, env) for x in e)
+    if not isinstance(e, tuple):
+        return e
+    if e == ('pos',):
+        return ('ci', env['#'])
+    if e and e[0] == 'sym':
+        v = env[e[1]]
+        return ('ci', v) if isinstance(v, int) else ('c', v)
+    return tuple(_subst_expr(x, env) if isinstance(x, (tuple, frozenset)) else x for x in e)
+
+
+def _ev_usize(e):
+    """value of an integer-valued elem expression whose float -> int casts target usize (negative values saturate to 0)"""
+    from ..formula import ev
+
+    def sat(n):
+        if isinstance(n, tuple) and n and n[0] == 'f2i':
+            v = ev(sat_all(n[1]), {}, 0.0)
+            return ('ci', max(0, int(v)) if v == v else 0)
+        return n
+
+    def sat_all(n):
+        if not isinstance(n, tuple):
+            return n
+        n = tuple(sat_all(x) if isinstance(x, tuple) else x for x in n)
+        return sat(n)
+    return ev(sat_all(e), {}, 0.0)
+
+
+def _ranges_of(prog, f):
+    out = []
+    for c in f.calls():
+        for a in c.args:
+            for z in subterms(a):
+                if tag(z) == 'range' and z not in out:
+                    out.append(z)
+    return out
+
+
+def _grid_rule(prog, rep, name, syms, elem_ref, count_ref, points, ok_text, what):
+    """elements and count of a grid constructor, decided point-wise on exactly representable witnesses: the element expressions the
+    ElemEngine finds (position erased to one opaque integer) and the bound of the 0..count range are evaluated and compared with the
+    reference; any construction idiom the engine reads is accepted, a differing value at a witness is the violation"""
+    from ..elem import ElemEngine, Env, has_top, top_reasons
+    from ..formula import ev, close, Uneval, Excluded
+    f = prog.func(U + name)
+    key = 'grid:%s%s' % (U, name)
+    if f is None:
+        return
+    rep.touch(f.body.key)
+    eng = ElemEngine(prog, ints=True, guard_locals=True, positions=True)
+    args = {i + 1: frozenset([('sym', sname)]) for i, sname in enumerate(syms)}
+    problems, undec = [], []
+    f0 = f
+    try:
+        ret, _ = eng.result_of(f.body.key, args)
+    except Exception as ex:      # engine limits
+        ret = None
+        undec.append('elements not read (%s)' % str(ex)[:60])
+    if ret is not None:
+        if not isinstance(ret, frozenset) or has_top(ret) or not ret:
+            undec.append('elements not read (%s)' % '; '.join(sorted(top_reasons(ret)))[:80] if isinstance(ret, frozenset) else 'elements not read')
+        else:
+            for e in sorted(ret, key=repr):
+                bad = None
+                try:
+                    for pt in points:
+                        for pos in (0, 1, 3):
+                            env = dict(zip(syms, pt)); env['#'] = pos
+                            try:
+                                got = ev(_subst_expr(e, env), {}, 0.0)
+                            except Excluded:
+                                continue
+                            want = elem_ref(pt, pos)
+                            if not close(float(got), float(want), 1e-12):
+                                bad = (pt, pos, got, want)
+                                break
+                        if bad:
+                            break
+                except (Uneval, Excluded, TypeError, KeyError) as ex:
+                    undec.append('element expression not evaluated (%s)' % str(ex)[:50])
+                    continue
+                if bad:
+                    problems.append('element %d of %s%s is %s, %s is %s' % (bad[1], name, tuple(bad[0]), bad[2], what, bad[3]))
+    # count: bound of the 0..count range
+    rngs = _ranges_of(prog, f)
+    env0 = Env(f, args, {})
+    hops = 0
+    while not rngs and hops < 2:
+        # a wrapper (`arange(a, b, s) = arange_with(a, b, s, false)`): the range is looked for in the single in-crate callee it returns
+        rv = f.return_values()
+        if not (len(rv) == 1 and tag(rv[0]) == 'call' and rv[0][1] in prog.pdb.bodies):
+            break
+        g = prog.func(rv[0][1])
+        if g is None:
+            break
+        try:
+            args2 = {i + 1: eng.ev(env0, a) for i, a in enumerate(rv[0][2])}
+        except Exception:
+            break
+        f, env0 = g, Env(g, args2, {})
+        rep.touch(g.body.key)
+        rngs = _ranges_of(prog, f)
+        hops += 1
+    if len(rngs) != 1:
+        undec.append('no single 0..count range found (%d)' % len(rngs))
+    else:
+        rng = rngs[0]
+        try:
+            lo = eng.ev(env0, rng[1]) if tag(rng[1]) != 'const' else frozenset([('ci', rng[1][2])])
+            hi = eng.ev(env0, rng[2])
+        except Exception as ex:
+            lo = hi = None
+            undec.append('range bound not read (%s)' % str(ex)[:50])
+        if hi is not None:
+            if not isinstance(hi, frozenset) or has_top(hi) or lo != frozenset([('ci', 0)]):
+                undec.append('range %s not read' % show(rng)[:60])
+            else:
+                alts = sorted(hi, key=repr)
+                allgood = True
+                for pt in points:
+                    env = dict(zip(syms, pt)); env['#'] = 0
+                    want = count_ref(pt)
+                    try:
+                        vals = []
+                        for e in alts:
+                            try:
+                                vals.append(_ev_usize(_subst_expr(e, env)))
+                            except Excluded:
+                                pass        # this form is assigned only under comparisons that do not hold at the witness
+                    except (Uneval, TypeError, KeyError) as ex:
+                        undec.append('count expression not evaluated (%s)' % str(ex)[:50])
+                        allgood = False
+                        break
+                    if not vals:
+                        allgood = False
+                        continue
+                    if all(v != want for v in vals):
+                        problems.append('%s%s yields %s points, %s has %d' % (name, tuple(pt), ' or '.join(str(v) for v in vals), what, want))
+                        allgood = False
+                        break
+                    if any(v != want for v in vals):
+                        allgood = False
+                if not allgood and not problems and not any('count' in u for u in undec):
+                    undec.append('count has several forms (%d) whose conditions are not read' % len(alts))
+    if problems:
+        rep.viol('grid', key, '; '.join(problems), site_of(f0.body))
+    elif undec:
+        rep.undecided('grid', key, '; '.join(undec), site_of(f0.body), proof=False)
+    else:
+        rep.ok('grid', key, ok_text)
+
+
 def d5_grids(prog, rep):
-    f = prog.func(U + 'arange')
-    key = 'grid:%sarange' % U
-    if f is not None:
-        rep.touch(f.body.key)
-        start, stop, step = [('arg', i, f.names.get(i)) for i in (1, 2, 3)]
-        # the iterator range 0..count
-        rng = None
-        for c in f.calls():
-            for a in c.args:
-                for z in subterms(a):
-                    if tag(z) == 'range':
-                        rng = z
-        ok = False
-        why = 'no 0..count range found'
-        if rng is not None:
-            cnt = rng[2]
-            why = 'count = %s' % show(cnt)
-            if tag(cnt) == 'cast' and cnt[1] == 'FloatToInt':
-                inner = cnt[2]
-                ratio = ('bin', 'Div', ('bin', 'Sub', stop, start, 'f64'), step, 'f64')
-                if tag(inner) == 'call' and inner[1].endswith('::ceil') and inner[2][0] == ratio:
-                    ok = True
-        # element formula start + i*step
-        cl = [b for k, b in prog.pdb.bodies.items() if k.startswith(U + 'arange::{closure')]
-        okf = False
-        if cl:
-            g = prog.func(cl[0].key)
-            rv = g.return_values()
-            if len(rv) == 1:
-                okf = _is_affine_grid(rv[0])
-        if ok and okf:
-            rep.ok('grid', key, 'count = ceil((stop-start)/step) as usize; element i = start + i*step')
-        elif not ok:
-            rep.viol('grid', key, 'arange truncates its count (%s): for a non-integer (stop-start)/step the last grid point below `stop` is dropped '
-                     '(arange(0, 1, 0.3) yields 3 points instead of 4); the half-open convention needs ceil' % why, site_of(f.body))
-        else:
-            rep.viol('grid', key, 'element formula is not start + i*step', site_of(f.body))
-    f = prog.func(U + 'linspace')
-    key = 'grid:%slinspace' % U
-    if f is not None:
-        rep.touch(f.body.key)
-        start, stop, num = [('arg', i, f.names.get(i)) for i in (1, 2, 3)]
-        rng = None
-        for c in f.calls():
-            for a in c.args:
-                for z in subterms(a):
-                    if tag(z) == 'range':
-                        rng = z
-        okr = rng == ('range', ('const', 'usize', 0), num)
-        cl = [b for k, b in prog.pdb.bodies.items() if k.startswith(U + 'linspace::{closure')]
-        okw = False
-        if cl:
-            g = prog.func(cl[0].key)
-            # width upvar
-            for c in f.calls():
-                for a in c.args:
-                    for z in subterms(a):
-                        if tag(z) == 'agg' and z[1] == 'closure':
-                            for u in z[3]:
-                                if tag(u) == 'bin' and u[1] == 'Div':
-                                    num1 = u[3]
-                                    okw = u[2] == ('bin', 'Sub', stop, start, 'f64') and tag(num1) == 'cast' and peq(poly(num1[2]), psub(poly(num), {(): 1}))
-            rv = g.return_values()
-            okw = okw and len(rv) == 1 and _is_affine_grid(rv[0])
-        if okr and okw:
-            rep.ok('grid', key, 'num points, width = (stop-start)/(num-1), element i = start + i*width')
-        else:
-            rep.viol('grid', key, 'linspace is not num points spaced (stop-start)/(num-1) from start', site_of(f.body))
+    import math
+    # witnesses are dyadic, so the reference values are exact in f64
+    pts_a = [(0.0, 1.0, 0.25), (0.0, 1.0, 0.375), (0.0, 1.125, 0.25), (0.0, 10.0, 1.0), (-3.0, 3.0, 1.5), (1.0, 0.0, 0.25), (2.0, 2.0, 1.0),
+             (0.5, 8.0, 2.0), (4.0, -1.0, -1.25), (1.0, 0.0, 0.375), (0.0, -1.0, 0.75)]
+    _grid_rule(prog, rep, 'arange', ('start', 'stop', 'step'),
+               lambda pt, i: pt[0] + i * pt[2],
+               lambda pt: max(0, math.ceil((pt[1] - pt[0]) / pt[2])),
+               pts_a, 'count = ceil((stop-start)/step) as usize; element i = start + i*step (decided on %d exact witnesses)' % len(pts_a),
+               'the half-open grid start + i*step < stop')
+    pts_l = [(0.0, 1.0, 5), (-2.0, 6.0, 9), (1.5, 0.5, 3), (0.0, 10.0, 11), (3.0, 4.0, 2)]
+    _grid_rule(prog, rep, 'linspace', ('start', 'stop', 'num'),
+               lambda pt, i: pt[0] + i * ((pt[1] - pt[0]) / (pt[2] - 1)),
+               lambda pt: pt[2],
+               pts_l, 'num points, element i = start + i*(stop-start)/(num-1) (decided on %d exact witnesses)' % len(pts_l),
+               'the closed grid of num points from start to stop')
     rep.floor('grid', 2, 'arange, linspace')
 
 
